@@ -634,7 +634,7 @@ def check_est_program(case, ctx):
         sizes = [len(e[1]) for e in empi]
         lopt = _loss_option(case["loss"], stp["weight"], stp["wraw"], sizes)
         kw = dict(on_algo_eq_constraint=stp["constraints"][0], on_algo_ineq_constraint=stp["constraints"][1],
-                  mode_proj_order=stp["order"], max_iteration_optimization=60)
+                  mode_proj_order=stp["order"], max_iteration_optimization=60, max_iteration_proj_physical=2000)
         _, aopt = c10.make_algo(case["algo"], **kw)
 
         def run(loss, algo):
